@@ -100,6 +100,12 @@ CHECKS["C01"] = dict(engine="tlc+calldrive",
    text="TLC checks ImplSeesCaller / CallerSeesImpl / ExactlyOnce / FilterOrder for two concurrent calls (two-way and one-way, success and failure) under the filter modes. For 8 filter configurations (none, legacy, middleware chains, pre/post, mixed; one child process each) a server started through the public API with the dispatcher generated from idl/Call.tars by the tars2go built from the working tree serves 8 concurrent callers sharing one generated proxy: 10 functions over every IDL type, random arguments built by reflection, random request/response context and status maps, failures with tars.Error codes and plain errors, one-way calls; every CallStart / filter / Impl / ImplRet / reply-written (hook) / CallEnd event is validated against the spec, which compares the canonical values.",
    design_ref="5/C01", note="Trusted: canonical JSON of Go values (reflection), attribution of events to calls via the context key vcall, hook tcp.handler.written (counted). TARS protocol version over TCP; TUP/JSON dispatcher versions are exercised by C10. Out parameters are fresh variables (reuse is C04's subject); -0.0 and +0.0 are identified.")
 
+CHECKS["C10"] = dict(engine="tlc+srvdrive",
+   technique="TLA+ spec ServerInvoke.tla (the relation Resp(request, configuration) written from the statement + a state machine of receive loop / pool / invoker goroutine / handle-timeout timer / reply write) model-checked by TLC; batch oracle (Oracle_ServerInvoke EXTENDS TarsSchema): every frame a real server sent back is decoded by the TLA+ reference decoder and each request's set of replies is judged against Resp",
+   category="model_checking",
+   text="TLC checks AtMostOnce, NoStrayReply, per-clause invariants and termination for pipelined requests on the code-shaped state machine (the four known deviations, switched on one at a time, each violate their clause: vacuity guards). Real servers started through the public API (tcp/udp, pool 0/1/2/4, handle timeout 0/150 ms; one child process per configuration) receive TARS/TUP/JSON requests, two-way and one-way, for ping / ok / failing / slow / unknown functions with timeouts 0 / already elapsed / ample, pipelined on 1-4 connections; the frames that come back are strict-decoded by TarsSchema and judged: exactly one reply (none for one-way), id / version / packet type echoed, ping not dispatched, error code and message conveyed, queue-timeout code without execution, timeout reply under a handle timeout.",
+   design_ref="5/C10", note="Trusted: ServerInvoke.tla Resp as the reading of the statement; faults that harness timing could explain are reported only if they reproduce 3 times; UDP quiescence is time-based.")
+
 PENDING = {}
 
 def main():
